@@ -1,0 +1,42 @@
+//go:build verif
+
+// Contracts for the fvc verification-condition generator in /verif (comment-only file).
+// C07, header values: "whatever it writes back is a well-formed HTTP/1.1 response" - no control byte other than HTAB
+// (RFC 9110 5.5: field-value = VCHAR / obs-text / SP / HTAB) reaches a header value through a response helper.
+
+package fiber
+
+//@ props C07
+
+// A control byte that a field value must not contain: 0x00-0x1f except HTAB (0x09), and DEL (0x7f).
+//@ macro isCtl(b) = (b < 32 && b != 9) || b == 127
+// cleanValue(s): s is a field value a strict client accepts - no control byte other than HTAB. (Implies noCRLF(s).)
+//@ fn cleanValue(s string) bool = forall(k, 0, len(s), !((s[k] < 32 && s[k] != 9) || s[k] == 127))
+
+// blankedCopy(r, v): r is v with every such control byte replaced by a blank, byte for byte (nothing added, dropped or moved).
+//@ macro blankedCopy(r, v) = len(r) == len(v) && forall(k, 0, len(v), r[k] == ite(isCtl(v[k]), ' ', v[k]))
+
+// headerValue(val): same length, every byte either kept or - a control byte - replaced by a blank; the result has no
+// control byte other than HTAB; a value without one is returned as it is.
+//@ func headerValue
+//@   pure
+//@   loop 1
+//@     invariant clean-so-far: 0 <= i && i <= len(val) && forall(k, 0, i, !isCtl(val[k]))
+//@     decreases len(val) - i
+//@   loop 2
+//@     invariant copy-of-val: len(b) == len(val) && 0 <= j && j <= len(b)
+//@     invariant blanked-so-far: forall(k, 0, j, b[k] == ite(isCtl(val[k]), ' ', val[k]))
+//@     invariant rest-as-given: forall(k, j, len(b), b[k] == val[k])
+//@     decreases len(b) - j
+//@   ensures same-length: len(result) == len(val)
+//@   ensures each-byte-kept-or-control-byte-blanked: blankedCopy(result, val)
+//@   ensures no-control-byte-in-header-value: cleanValue(result)
+//@   ensures stays-on-one-header-line: noCRLF(result)
+//@   ensures clean-value-unchanged: cleanValue(val) ==> result == val
+
+// containsCTL(s): exactly "s is not a clean field value" (used by Cookie / ClearCookie for cookie names, paths, domains).
+//@ func containsCTL pure
+//@   loop 1
+//@     invariant none-so-far: 0 <= i && i <= len(s) && forall(k, 0, i, !isCtl(s[k]))
+//@     decreases len(s) - i
+//@   ensures exact: result == !cleanValue(s)
